@@ -452,3 +452,152 @@ def xor_to_general(prob, pred):
         for b in range(2):
             v[a, b] = (pred == (a ^ b)).astype(float)
     return np.asarray(prob, dtype=float), v
+
+
+# ----------------------------------------------------------------------------
+# S(k) operator norm: own rigorous upper bounds on the true norm
+# ----------------------------------------------------------------------------
+
+
+def _swap_factors(x, d0, d1):
+    return x.reshape(d0, d1, d0, d1).transpose(1, 0, 3, 2).reshape(d0 * d1, d0 * d1)
+
+
+def sk1_dps2_upper(x, dims):
+    """Upper bound on sup <ab|X|ab> (Hermitian X, k = 1): max Tr(X rho_OS) over states on
+    O (x) S (x) S' that are Bose-symmetric on S S' and PPT across O and across S' (second level of the
+    symmetric-extension hierarchy, extension taken on the smaller factor).  Every product state has
+    such an extension, so the value bounds the true norm from above.  None if the solver fails."""
+    import cvxpy as cp
+
+    d0, d1 = dims
+    if d0 < d1:
+        x = _swap_factors(x, d0, d1)
+        d_o, d_s = d1, d0
+    else:
+        d_o, d_s = d0, d1
+    basis = []
+    for i in range(d_s):
+        for j in range(i, d_s):
+            v = np.zeros((d_s, d_s))
+            v[i, j] += 1
+            v[j, i] += 1
+            basis.append((v / np.linalg.norm(v)).reshape(-1))
+    v_iso = np.kron(np.eye(d_o), np.array(basis).T)
+    m = v_iso.shape[1]
+    sig = cp.Variable((m, m), hermitian=True)
+    rho = v_iso @ sig @ v_iso.conj().T
+
+    def ptrace_last(r):
+        out = 0
+        for i in range(d_s):
+            e = np.kron(np.eye(d_o * d_s), np.eye(d_s)[:, [i]])
+            out = out + e.T @ r @ e
+        return out
+
+    def ptranspose(r, pre, d, post):
+        out = 0
+        for i in range(d):
+            for j in range(d):
+                e = np.zeros((d, d))
+                e[i, j] = 1
+                k = np.kron(np.kron(np.eye(pre), e), np.eye(post))
+                out = out + k @ r @ k
+        return out
+
+    cons = [sig >> 0, cp.real(cp.trace(sig)) == 1, ptranspose(rho, 1, d_o, d_s * d_s) >> 0, ptranspose(rho, d_o * d_s, d_s, 1) >> 0]
+    prob = cp.Problem(cp.Maximize(cp.real(cp.trace(x @ ptrace_last(rho)))), cons)
+    try:
+        val = prob.solve(solver=cp.SCS, eps=1e-7, max_iters=50000)
+    except Exception:
+        return None
+    if prob.status != "optimal" or val is None or not np.isfinite(val):
+        return None
+    return float(val)
+
+
+def sk_bilinear_upper(x, k, dims):
+    """Upper bound on sup |<w|X|v>| over unit w, v of Schmidt rank <= k, for any X: maximise
+    Re Tr(X Z^*) over [[P, Z], [Z^*, Q]] >= 0 with Tr P = Tr Q = 1 and P, Q in the outer
+    approximation of S(k) states (PPT for k = 1, k (Tr_B R (x) I) >= R otherwise).  For w, v in S(k)
+    the choice P = |w><w|, Q = |v><v|, Z = |w><v| is feasible, so the value bounds the norm."""
+    import cvxpy as cp
+
+    d0, d1 = dims
+    n = d0 * d1
+    big = cp.Variable((2 * n, 2 * n), hermitian=True)
+    p_blk, q_blk, z_blk = big[:n, :n], big[n:, n:], big[:n, n:]
+
+    def pt_b(r):
+        out = 0
+        for i in range(d1):
+            for j in range(d1):
+                e = np.zeros((d1, d1))
+                e[i, j] = 1
+                kk = np.kron(np.eye(d0), e)
+                out = out + kk @ r @ kk
+        return out
+
+    def tr_b(r):
+        out = 0
+        for i in range(d1):
+            e = np.kron(np.eye(d0), np.eye(d1)[:, [i]])
+            out = out + e.T @ r @ e
+        return out
+
+    cons = [big >> 0, cp.real(cp.trace(p_blk)) == 1, cp.real(cp.trace(q_blk)) == 1]
+    for r in (p_blk, q_blk):
+        if k == 1:
+            cons.append(pt_b(r) >> 0)
+        else:
+            cons.append(k * cp.kron(tr_b(r), np.eye(d1)) - r >> 0)
+    prob = cp.Problem(cp.Maximize(cp.real(cp.trace(x @ z_blk.H))), cons)
+    try:
+        val = prob.solve(solver=cp.SCS, eps=1e-7, max_iters=50000)
+    except Exception:
+        return None
+    if prob.status != "optimal" or val is None or not np.isfinite(val):
+        return None
+    return float(val)
+
+
+def horodecki_2x4(b):
+    r = np.zeros((8, 8))
+    for i in range(8):
+        r[i, i] = b
+    r[4, 4] = r[7, 7] = (1 + b) / 2
+    for i, j in [(0, 5), (1, 6), (2, 7)]:
+        r[i, j] = r[j, i] = b
+    r[4, 7] = r[7, 4] = np.sqrt(1 - b * b) / 2
+    return r / (7 * b + 1)
+
+
+def horodecki_3x3(a):
+    r = np.zeros((9, 9))
+    for i in range(9):
+        r[i, i] = a
+    r[6, 6] = r[8, 8] = (1 + a) / 2
+    for i, j in [(0, 4), (0, 8), (4, 8)]:
+        r[i, j] = r[j, i] = a
+    r[6, 8] = r[8, 6] = np.sqrt(1 - a * a) / 2
+    return r / (8 * a + 1)
+
+
+def ppt_edge_operator(rho, dims, c1, c2):
+    """X = lambda I - (c1 P_ker(rho) + c2 (P_ker(rho^Gamma))^Gamma) for a PPT state rho: every PPT state
+    sigma has Tr(X sigma) <= lambda with equality at rho, so the maximum over PPT states sits on rho; if
+    rho is an entangled edge state the supremum over product vectors is strictly smaller."""
+    d0, d1 = dims
+
+    def pt(m):
+        return m.reshape(d0, d1, d0, d1).transpose(0, 3, 2, 1).reshape(d0 * d1, d0 * d1)
+
+    def kerproj(m):
+        w, v = np.linalg.eigh((m + m.conj().T) / 2)
+        kk = v[:, w < 1e-9]
+        return kk @ kk.conj().T
+
+    z = c1 * kerproj(rho) + c2 * pt(kerproj(pt(rho)))
+    z = (z + z.conj().T) / 2
+    lam = float(np.linalg.eigvalsh(z)[-1])
+    return lam * np.eye(d0 * d1) - z
